@@ -1215,6 +1215,8 @@ class Component(composites.Composite, metaclass=ComponentType):
         linkedDims = self._getLinkedDimsAndValues()
         composites.Composite.backUp(self)
         self._restoreLinkedDims(linkedDims)
+        # the pickled backup cannot hold the links: remember them next to it (nested like it)
+        self._backupLinkedDims = (linkedDims, getattr(self, "_backupLinkedDims", None))
 
     def restoreBackup(self, paramsToApply):
         """
@@ -1223,9 +1225,18 @@ class Component(composites.Composite, metaclass=ComponentType):
         This needed to be overridden due to linked components which actually have a parameter value
         of another ARMI component.
         """
-        linkedDims = self._getLinkedDimsAndValues()
+        currentLinkedDims = self._getLinkedDimsAndValues()
         composites.Composite.restoreBackup(self, paramsToApply)
-        self._restoreLinkedDims(linkedDims)
+        # dimensions come back as they were backed up (also when a link was replaced by a number
+        # meanwhile); only the dimensions named to be kept retain their current link
+        backedUpLinkedDims, self._backupLinkedDims = self._backupLinkedDims
+        kept = {pd.fieldName for pd in paramsToApply.intersection(set(self.p.paramDefs))}
+        self._restoreLinkedDims([d for d in backedUpLinkedDims if d[0] not in kept])
+        self._restoreLinkedDims([d for d in currentLinkedDims if d[0] in kept])
+        if self.parent is not None:
+            # the restored cached volume/area of a DerivedShape sibling may predate a change that
+            # was pending (derivedMustUpdate) when the backup was made and consumed inside the scope
+            self.parent.derivedMustUpdate = True
 
     def _getLinkedDimsAndValues(self):
         linkedDims = []
